@@ -9,18 +9,18 @@ REGISTRY = {
         'not_covered': [],
     },
     'C04': {
-        'v': ['c04_keystate', 'c04_objects', 'c04_apply'],
+        'v': ['c04_keystate', 'c04_objects', 'c04_apply', 'c04_listener'],
         'k': [],
         'level_text': 'State-machine contracts on the real key-roll code: each apply_* requires exactly its non-panicking phase and ensures the target phase and which key moves where; each emit function produces a key event only in the phase where it is enabled (so the returned sequence can be applied without reaching a panic arm). Inductive per command; liveness and cross-command interleavings beyond per-command preservation are not decided.',
         'level_note': 'CertAuth::apply dispatch from a key event to apply_* is verified on the extracted match (unit c04_apply, non-key arms dropped, R6) against the same ev_enabled definition that the emit side is verified against; the apply_* contracts proved in c04_keystate are repeated there as assumptions; signer, renewals and child-certificate re-issue are opaque externals; time is an input.',
         'design_ref': 'DESIGN.md section 10.4 (as built) and section 5 / C04',
-        'not_covered': ['CaObjectsStore pre-save handlers (how the object sets follow the stored events)', 'liveness: the roll always completes'],
+        'not_covered': ['the with_ca_objects / for-loop glue of the pre-save listener and its final re_issue call (one iteration of the loop is verified: matching CaObjects operation per event, re-issue forced by every publication change)', 'liveness: the roll always completes'],
     },
 }
 REGISTRY['C01'] = {
-    'v': ['c01_roamode', 'c01_aggregate', 'c01_aspa'],
+    'v': ['c01_roamode', 'c01_aggregate', 'c01_aspa', 'c02_rcvd', 'c04_listener'],
     'k': [],
-    'level_text': 'Object-derivation kernels only: the ROA publication-mode switch is the 4-way table of the statement (an empty relevant set never changes strategy, so aggregated ROAs are still withdrawn by the aggregate path). End-to-end relying-party validity, signatures and synchronisation with the publication server are not decided.',
+    'level_text': 'Object-derivation kernels only: the ROA publication-mode switch is the 4-way table of the statement (an empty relevant set never changes strategy, so aggregated ROAs are still withdrawn by the aggregate path). When a certificate with other resources is received, the ROA / ASPA / BGPsec update events of the same event set are derived from the configuration handed in under the NEW certificate (unit c02_rcvd). ASPA objects: every object whose definition is gone or whose customer AS is no longer held is withdrawn, and objects are only issued for held customer ASes (unit c01_aspa). Aggregated ROAs carry exactly the configured authorisations (unit c01_aggregate). End-to-end relying-party validity, signatures and synchronisation with the publication server are not decided.',
     'level_note': 'is_currently_aggregating (keys().any(closure)) assumed; everything outside the listed kernels unverified.',
     'design_ref': 'DESIGN.md section 10.4 (as built) and section 5 / C01',
     'not_covered': ['end-to-end RP validation, signatures, sync with the publication server, histories', 'Routes::filter / update_simple, the issuing loop of AspaObjects::create_updates beyond its filter, BgpSecCertificates::create_updates (iterator chains over HashMaps)'],
@@ -34,9 +34,9 @@ REGISTRY['C05'] = {
     'not_covered': ['BGPsec definition deltas', 'provider order inside an ASPA definition (contracts are over provider sets)', 'repository untouched on refusal (follows from no event, A8)'],
 }
 REGISTRY['C09'] = {
-    'v': ['c09_taskqueue', 'c09_scheduler', 'c09_queue'],
+    'v': ['c09_taskqueue', 'c09_scheduler', 'c09_queue', 'c09_events'],
     'k': [],
-    'level_text': 'Against a ghost model of the (trusted) queue: a restart leaves no task in the running state and re-queues every task that was running, for any number of running tasks (unbounded loop invariant). The publish path schedules the RRDP update (unit c12_rfc8181). Queue transaction bodies (closure bodies lifted verbatim, R15) against a ghost model of the key-value transaction: schedule_task leaves the task pending exactly once at the time its mode prescribes, soonest modes keep the earlier of the two times, finish modes end the running entry, IfMissing never replaces, other tasks untouched; the claim fold step hands out the earliest due key; finish refuses only what is not running. Eventual execution, crash points and the scheduler loop are not decided.',
+    'level_text': 'Against a ghost model of the (trusted) queue: a restart leaves no task in the running state and re-queues every task that was running, for any number of running tasks (unbounded loop invariant). The publish path schedules the RRDP update (unit c12_rfc8181). A committed CA event puts its follow-up on the queue in the same pre-save step (schedule_for_ca_event): repository sync after every object or key change, parent sync after a certificate request and after a key activation, the revocation task after a class is removed or an unexpected key is found. Queue transaction bodies (closure bodies lifted verbatim, R15) against a ghost model of the key-value transaction: schedule_task leaves the task pending exactly once at the time its mode prescribes, soonest modes keep the earlier of the two times, finish modes end the running entry, IfMissing never replaces, other tasks untouched; the claim fold step hands out the earliest due key; finish refuses only what is not running. Eventual execution, crash points and the scheduler loop are not decided.',
     'level_note': 'For the TaskQueue facade commons::queue::Queue is specified by assumed contracts (running/pending sets); in unit c09_queue the key-value Transaction (delete/store/has), task_storage_key/split_storage_key (format!/parse) and get_storage_key_and_time (find_map) carry assumed contracts and std::cmp::min::<u128> is assumed numeric; R7 (&self -> &mut self) lets the ghost model change.',
     'design_ref': 'DESIGN.md section 10.4 (as built) and section 5 / C09',
     'not_covered': ['claim_scheduled_pending_task outside its fold step (list_keys/into_iter/fold glue, move to running)', 'reschedule_long_running_tasks', 'Task::name is injective (queue de-duplicates on names built with format!)', 'crash while a task is running (file system)', 'eventual execution (liveness)'],
